@@ -52,6 +52,7 @@ type Result struct {
 	WallS      float64        `json:"wall_s"`
 	Sample     any            `json:"sample,omitempty"`
 	PerBound   []string       `json:"per_bound,omitempty"`
+	DevDone    int            `json:"deviation_bound_completed,omitempty"`
 	// unbounded partial-order-reduced phase
 	DporRan      bool   `json:"dpor_ran,omitempty"`
 	DporComplete bool   `json:"dpor_complete,omitempty"`
@@ -81,6 +82,11 @@ type Budget struct {
 	// best-effort bounds): keeps "required bound cut" from depending on machine load
 	RequiredPerScen time.Duration
 	MaxExecs        int64
+	// DevBounds: deviation bounds explored BEFORE the preemption bounds (vrt.Explorer.DevBound): all schedules
+	// that differ from the default schedule in at most d choices. The first DevRequired of them must complete.
+	DevBounds   []int
+	DevRequired int
+	DevPerScen  time.Duration
 	// DPOR, when > 0, is the wall budget of a final phase without preemption bound: dynamic
 	// partial-order reduction with sleep sets (vrt/dpor.go) — at least one interleaving of every
 	// Mazurkiewicz trace of the scenario. Completing it decides the scenario for EVERY interleaving.
@@ -104,12 +110,36 @@ func Explore(i int, sc Scenario, b Budget) *Result {
 	nt := map[uint64]struct{}{}
 	deadline := t0.Add(b.PerScen)
 	sigSeen := map[string]int{}
-	for bi, bound := range b.Bounds {
+	type phase struct {
+		bound int
+		dev   bool
+	}
+	var phases []phase
+	for _, d := range b.DevBounds {
+		phases = append(phases, phase{d, true})
+	}
+	for _, bd := range b.Bounds {
+		phases = append(phases, phase{bd, false})
+	}
+	nDev := len(b.DevBounds)
+	for pi, ph := range phases {
+		bound := ph.bound
+		bi := pi - nDev
 		dl := deadline
+		if ph.dev {
+			bi = 1 << 20 // never "required" through the preemption-bound rule
+			dl = t0.Add(b.DevPerScen)
+			if b.DevPerScen == 0 {
+				dl = deadline
+			}
+		}
 		if bi < b.Required && b.RequiredPerScen > 0 {
 			dl = t0.Add(b.RequiredPerScen)
 		}
 		e := &vrt.Explorer{Bound: bound, Prune: b.Prune, Deadline: dl, MaxExecs: b.MaxExecs}
+		if ph.dev {
+			e.DevMode, e.DevBound = true, bound
+		}
 		var lastX *vrt.Execution
 		e.OnExec = func(x *vrt.Execution) bool {
 			lastX = x
@@ -138,7 +168,11 @@ func Explore(i int, sc Scenario, b Budget) *Result {
 		tb := time.Now()
 		e.Explore(body)
 		_ = lastX
-		res.PerBound = append(res.PerBound, fmt.Sprintf("bound=%d execs=%d pruned=%d states=%d restarts=%d wall=%.1fs capped=%q", bound, e.Execs, e.Pruned, e.States(), e.Restarts, time.Since(tb).Seconds(), e.Capped))
+		label := "bound"
+		if ph.dev {
+			label = "deviations<"
+		}
+		res.PerBound = append(res.PerBound, fmt.Sprintf("%s=%d execs=%d pruned=%d states=%d restarts=%d wall=%.1fs capped=%q", label, bound, e.Execs, e.Pruned, e.States(), e.Restarts, time.Since(tb).Seconds(), e.Capped))
 		res.Execs += e.Execs
 		res.Pruned += e.Pruned
 		res.Points += e.Points
@@ -148,6 +182,21 @@ func Explore(i int, sc Scenario, b Budget) *Result {
 		}
 		if e.MaxPoints > res.MaxPoints {
 			res.MaxPoints = e.MaxPoints
+		}
+		if ph.dev {
+			if e.Capped != "" {
+				if pi < b.DevRequired {
+					res.Capped = fmt.Sprintf("deviation bound %d: %s", bound, e.Capped)
+					break
+				}
+				res.BestEffort = fmt.Sprintf("deviation bound %d (beyond the required ones): %s", bound, e.Capped)
+			} else if bound > res.DevDone {
+				res.DevDone = bound
+			}
+			if len(res.Viols) > 0 {
+				break
+			}
+			continue
 		}
 		if e.Capped != "" {
 			if bi >= b.Required {
@@ -362,7 +411,7 @@ func Merge(r *core.Report, results []*Result) {
 		for _, v := range res.Viols {
 			r.Violate(v.Signature, v.Desc, v)
 		}
-		perScenario = append(perScenario, map[string]any{"name": res.Name, "executions": res.Execs, "pruned": res.Pruned, "states": res.States, "bound_completed": res.BoundDone, "distinct_outcomes": len(res.Outcomes), "outcome_examples": outcomeExamples(res.Outcomes, 6), "max_points": res.MaxPoints, "wall_s": res.WallS, "capped": res.Capped, "best_effort_capped": res.BestEffort, "per_bound": res.PerBound})
+		perScenario = append(perScenario, map[string]any{"name": res.Name, "executions": res.Execs, "pruned": res.Pruned, "states": res.States, "bound_completed": res.BoundDone, "deviation_bound_completed": res.DevDone, "distinct_outcomes": len(res.Outcomes), "outcome_examples": outcomeExamples(res.Outcomes, 6), "max_points": res.MaxPoints, "wall_s": res.WallS, "capped": res.Capped, "best_effort_capped": res.BestEffort, "per_bound": res.PerBound})
 		if res.Sample != nil {
 			r.Sample(res.Sample)
 		}
@@ -375,6 +424,15 @@ func Merge(r *core.Report, results []*Result) {
 	r.Set("horizon_hits_not_decided", horizons)
 	r.Set("distinct_outcomes_total", outcomes)
 	r.Set("min_preemption_bound_completed_over_scenarios", minBound)
+	minDev := 1 << 30
+	for _, res := range results {
+		if res != nil && res.DevDone < minDev {
+			minDev = res.DevDone
+		}
+	}
+	if minDev < 1<<30 && minDev > 0 {
+		r.Set("min_deviation_bound_completed_over_scenarios", minDev)
+	}
 	r.Set("scenarios", perScenario)
 }
 
